@@ -176,7 +176,11 @@ func (t *InitType) New(c px.Context, args []px.Value) px.Value {
 	if t.ctor == nil {
 		panic(px.Error(px.InstanceDoesNotRespond, issue.H{`type`: t, `message`: `new`}))
 	}
+	// As for any other type (newInstance), what new yields must be an instance of the type it creates
+	return px.AssertInstance(`new`, t.typ, t.create(c, args))
+}
 
+func (t *InitType) create(c px.Context, args []px.Value) px.Value {
 	if !t.initArgs.IsEmpty() {
 		// The init arguments must be combined with the given value in an array. Here, it doesn't
 		// matter if the given value is an array or not. It must match as a single value regardless.
